@@ -985,7 +985,9 @@ def _decorate_new_with_invariants(new_func: CallableT) -> CallableT:
     return wrapper  # type: ignore
 
 
-def _decorate_with_invariants(func: CallableT, is_init: bool) -> CallableT:
+def _decorate_with_invariants(
+    func: CallableT, is_init: bool, is_setattr: Optional[bool] = None
+) -> CallableT:
     """
     Decorate the method ``func`` with invariant checks.
 
@@ -993,8 +995,15 @@ def _decorate_with_invariants(func: CallableT, is_init: bool) -> CallableT:
 
     :param func: function to be wrapped
     :param is_init: True if the ``func`` is __init__
+    :param is_setattr:
+        True if the ``func`` is set as ``__setattr__`` of the class.
+        If not specified, it is inferred from the name of the ``func``. The name of the function does not need
+        to coincide with the name of the attribute (*e.g.*, ``__setattr__ = _some_other_function``).
     :return: function wrapped with invariant checks
     """
+    if is_setattr is None:
+        is_setattr = getattr(func, "__name__", None) == "__setattr__"
+
     if _already_decorated_with_invariants(func=func):
         return func
 
@@ -1071,7 +1080,7 @@ def _decorate_with_invariants(func: CallableT, is_init: bool) -> CallableT:
 
                 invariants = (
                     instance.__class__.__invariants_on_setattr__
-                    if func.__name__ == "__setattr__"
+                    if is_setattr
                     else instance.__class__.__invariants_on_call__
                 )
 
@@ -1118,7 +1127,7 @@ def _decorate_with_invariants(func: CallableT, is_init: bool) -> CallableT:
 
                 invariants = (
                     instance.__class__.__invariants_on_setattr__
-                    if func.__name__ == "__setattr__"
+                    if is_setattr
                     else instance.__class__.__invariants_on_call__
                 )
 
@@ -1315,7 +1324,9 @@ def add_invariant_checks(cls: ClassT) -> None:
                 setattr(cls, init_func.__name__, wrapper)
 
     for name, func in names_funcs:
-        wrapper = _decorate_with_invariants(func=func, is_init=False)
+        wrapper = _decorate_with_invariants(
+            func=func, is_init=False, is_setattr=(name == "__setattr__")
+        )
         if wrapper is not func:
             setattr(cls, name, wrapper)
 
